@@ -20,11 +20,30 @@ def _quiet():
         pass
 
 
+def _debug_logging(on):
+    """The deployment runs with --debug: the root logger is at DEBUG (its output goes nowhere)."""
+    root = logging.getLogger()
+    if on:
+        logging.disable(logging.NOTSET)
+        if not any(isinstance(h, logging.NullHandler) for h in root.handlers):
+            root.addHandler(logging.NullHandler())
+        root.setLevel(logging.DEBUG)
+    else:
+        root.setLevel(logging.WARNING)
+        logging.disable(logging.CRITICAL)
+
+
 def _work(job):
     _quiet()
     from . import hrefcases
     try:
-        n, c = hrefcases.run_config(job["cases"], job["frontend"], job["prefix"])
+        _debug_logging(bool(job.get("debug")))
+        try:
+            n, c = hrefcases.run_config(job["cases"], job["frontend"], job["prefix"])
+        finally:
+            _debug_logging(False)
+        if job.get("debug"):
+            c["prefix"] = c["prefix"] + "+debug"
         return {"ok": True, "names": n, "cfg": c}
     except Exception:
         return {"ok": False, "error": traceback.format_exc()}
@@ -35,10 +54,14 @@ def _work_layout(job):
     from . import layoutcases
     try:
         recs, refused = [], set()
-        for t in job["trees"]:
-            r, rf = layoutcases.run_layout(t, job["frontend"], job["prefix"])
-            recs.extend(r)
-            refused.update(rf)
+        _debug_logging(bool(job.get("debug")))
+        try:
+            for t in job["trees"]:
+                r, rf = layoutcases.run_layout(t, job["frontend"], job["prefix"])
+                recs.extend(r)
+                refused.update(rf)
+        finally:
+            _debug_logging(False)
         return {"ok": True, "recs": recs, "refused": sorted(refused)}
     except Exception:
         return {"ok": False, "error": traceback.format_exc()}
@@ -90,6 +113,9 @@ def run(prop, tier, seed, replay=None):
             if quick and (pi + ci) % 3 != 0 and p != "/":
                 continue
             jobs.append({"cases": part, "frontend": f, "prefix": p})
+    # a deployment started with --debug (one part of the names per front end)
+    for f in ("wsgi", "aiohttp"):
+        jobs.append({"cases": parts[0][:40], "frontend": f, "prefix": "/", "debug": True})
     # collection layouts (Layout.tla): every layout under every front end; quick rotates the prefixes
     layouts = enumerate_layouts()
     ljobs = []
@@ -97,6 +123,7 @@ def run(prop, tier, seed, replay=None):
         mine = [t for k, t in enumerate(layouts) if not quick or (k + ci) % 3 == 0 or p == "/"]
         for i in range(0, len(mine), 8):
             ljobs.append({"trees": mine[i:i + 8], "frontend": f, "prefix": p})
+    ljobs.append({"trees": layouts[:8], "frontend": "wsgi", "prefix": "/", "debug": True})
     if replay and json.load(open(replay)).get("layout"):
         r = json.load(open(replay))["layout"]
         jobs = []
